@@ -395,10 +395,18 @@ def d1_history(position, P, build, derive, early, target, mkind, dotted=True, tw
         return None
     names = read_names(P, q)
     snames = read_names(P, o)
-    if early:
-        read_all(q, names if early == "all" else [n for n in early if n in names])
-        if early == "all" or early[0].startswith("source:"):
-            read_all(o, snames if early == "all" else [early[0][7:]])
+    if isinstance(early, str):
+        # "all": everything; "fields": everything but the conversions (a conversion registers the converted array with the attached
+        # object and the object with the converted array, which links the object to its attached object indirectly); "systems": the
+        # conversions only
+        for x, nms in ((q, names), (o, snames)):
+            systems = set(P._SYSTEMS.get(x.cls_name, {}))
+            pick = {"all": lambda n: True, "fields": lambda n: "." not in n and n not in systems, "systems": lambda n: n in systems}[early]
+            read_all(x, [n for n in nms if pick(n)])
+    elif early:
+        read_all(q, [n for n in early if n in names])
+        if early[0].startswith("source:"):
+            read_all(o, [early[0][7:]])
     x = target(o, q)
     if x is None:
         return None
@@ -436,7 +444,8 @@ def cache_held(dname):
 QUICK_WORLDS = ["pos:n", "pos:1", "delta:n", "posvel:n", "pvdelta:n"]
 
 
-def run_d1(ctx, mods, thorough):
+def plan_d1(ctx, mods, thorough):
+    """the list of D1 histories of this run: ((world, derivation, changed object, getter, change, reads, single reads), early reads)"""
     position = mods[6]
     import midgard.data._position as P
 
@@ -469,24 +478,44 @@ def run_d1(ctx, mods, thorough):
             core.append((wname, dname, "derived", targets[0][1], "none", names, singles))
     # every core plan with everything read early; a random sample of all plans with one early read (and of the other
     # kinds of keys / other worlds with everything read early)
-    jobs = [(pl, "all") for pl in core]
+    jobs = [(pl, e) for pl in core for e in ("all", "fields", "systems")]
+    # one derived quantity alone (no conversion is made on the way: nothing registers the object anywhere)
+    jobs += [(pl, [f]) for pl in core for f in ("distance", "direction") if f in pl[5]]
     for _ in range(ctx.budget(500, 14000)):
         pl = rng.choice(core + rest)
         jobs.append((pl, "all" if pl in rest and rng.random() < 0.4 else [rng.choice(pl[6] if rng.random() < 0.8 else pl[5])]))
-    n = 0
-    bases = {}
-    for (wname, dname, tl, tg, mk, names, singles), early in jobs:
+    ctx.extra["D1_derivations_applicable"] = cover
+    ctx.extra["D1_plans"] = {"core": len(core), "other": len(rest)}
+    return [(pl, early, thorough) for pl, early in jobs]
+
+
+def shard_d1(job):
+    import zlib
+
+    (wname, dname, tl, tg, mk, names, singles), early, thorough = job
+    return zlib.crc32(repr((wname, dname, tl, mk)).encode())
+
+
+def exec_d1(ctx, mods, job, state):
+    """one D1 history against the same history without the early reads (kept in `state` per plan) and against the twin"""
+    position = mods[6]
+    import midgard.data._position as P
+
+    if "W" not in state:
+        state["W"], state["D"], state["bases"] = worlds(position), derivations(position), {}
+    W, D, bases = state["W"], state["D"], state["bases"]
+    (wname, dname, tl, tg, mk, names, singles), early, thorough = job
+    if True:
         build, derive = W[wname], D[dname]
-        dotted = thorough or early != "all"
+        dotted = thorough or not isinstance(early, str)
         bk = (wname, dname, tl, mk, dotted)
         if bk not in bases:
             bases[bk] = d1_history(position, P, build, derive, None, tg, mk, dotted=dotted, twin=False)
         base = bases[bk]
         if base is None:
-            continue
+            return
         got = d1_history(position, P, build, derive, early, tg, mk, dotted=dotted)
-        n += 1
-        ename = early if early == "all" else early[0]
+        ename = early if isinstance(early, str) else early[0]
         case = {"part": "D1", "world": wname, "derivation": dname, "early_reads": ename, "changed": tl, "change": mk}
         ctx.case(["D1", wname, dname, ename, tl, mk], nontrivial=True)
         ctx.count(f"D1:world:{wname.split(':')[0]}")
@@ -495,7 +524,7 @@ def run_d1(ctx, mods, thorough):
         if got is None:
             ctx.violate(f"derived-object:applicability-depends-on-history:{dname}",
                         "the same construction and change raise only when quantities were read before", case)
-            continue
+            return
         compared = list(base[0])
         if cache_held(dname) and tl.startswith("derived"):
             # the derived object is the one the source keeps as its conversion / .pos / .vel: writing into it (or into what is
@@ -511,7 +540,7 @@ def run_d1(ctx, mods, thorough):
                         f"{wname}: q = {dname}(o); read {ename}; change {tl} ({mk}); then {who} gave "
                         f"{show(got[0][nm])} but {show(base[0][nm])} when nothing was read before the change "
                         f"({len(bad)} of {len(compared)} reads differ)", case)
-            continue
+            return
         if got[1] is not None:
             badt = [nm for nm in got[1] if not close(got[0][nm], got[1][nm])]
             if badt:
@@ -519,9 +548,13 @@ def run_d1(ctx, mods, thorough):
                 ctx.violate(f"derived-object-differs-from-twin:{dname}:{tl}",
                             f"{wname}: q = {dname}(o); read {ename}; change {tl} ({mk}); q.{nm} gave "
                             f"{show(got[0][nm])} but a freshly built object with the same contents gives {show(got[1][nm])}", case)
-    ctx.extra["D1_derivations_applicable"] = cover
-    ctx.extra["D1_plans"] = {"core": len(core), "other": len(rest)}
-    return n
+
+
+def run_d1(ctx, mods, thorough):
+    jobs, state = plan_d1(ctx, mods, thorough), {}
+    for job in jobs:
+        exec_d1(ctx, mods, job, state)
+    return len(jobs)
 
 
 # ------------------------------------------------------------------------------------------------ D2
@@ -630,7 +663,7 @@ def d2_history(position, build, argget, m1, write, target, mkind, m2):
     return res, tw
 
 
-def run_d2(ctx, mods, thorough):
+def plan_d2(ctx, mods, thorough):
     position = mods[6]
     W = worlds(position)
     rng = ctx.rng
@@ -661,18 +694,33 @@ def run_d2(ctx, mods, thorough):
                                 job = (wname, aname, m1, write, tgt, mk, m2)
                                 (core if (m1 == m2 and mk == "row0" and not write) or (thorough and mk == "row0") else rest).append(job)
     jobs = core + [rng.choice(rest) for _ in range(ctx.budget(1500, 60000))]
-    n = 0
-    bases = {}
-    for wname, aname, m1, write, tgt, mk, m2 in jobs:
+    ctx.extra["D2_methods_found"] = found
+    ctx.extra["D2_plans"] = {"core": len(core), "other": len(rest)}
+    return jobs
+
+
+def shard_d2(job):
+    import zlib
+
+    wname, aname, m1, write, tgt, mk, m2 = job
+    return zlib.crc32(repr((wname, aname, tgt, mk, m2)).encode())
+
+
+def exec_d2(ctx, mods, job, state):
+    position = mods[6]
+    if "W" not in state:
+        state["W"], state["bases"] = worlds(position), {}
+    W, bases = state["W"], state["bases"]
+    wname, aname, m1, write, tgt, mk, m2 = job
+    if True:
         build, argget = W[wname], d2_args(position, wname, None)[aname]
         bk = (wname, aname, tgt, mk, m2)
         if bk not in bases:
             bases[bk] = d2_history(position, build, argget, None, False, tgt, mk, m2)
         base = bases[bk]
         if base is None:
-            continue
+            return
         got = d2_history(position, build, argget, m1, write, tgt, mk, m2)
-        n += 1
         case = {"part": "D2", "world": wname, "argument": aname, "first_call": m1, "write_into_first_result": write,
                 "changed": tgt, "change": mk, "second_call": m2}
         ctx.case(["D2", wname, aname, m1, write, tgt, mk, m2], nontrivial=True)
@@ -680,7 +728,7 @@ def run_d2(ctx, mods, thorough):
         ctx.count(f"D2:arg:{aname.split(':')[0]}")
         ctx.count(f"D2:changed:{tgt}")
         if got is None:
-            continue
+            return
         if got[0] != base[0]:
             ctx.violate(f"argument-method-stale:{m2}:{tgt}",
                         f"{wname}: o.{m1}(x){' (result overwritten)' if write else ''}; change {tgt} ({mk}); o.{m2}(x) with x = {aname} gave "
@@ -689,6 +737,228 @@ def run_d2(ctx, mods, thorough):
             ctx.violate(f"argument-method-differs-from-twin:{m2}",
                         f"{wname}: o.{m1}(x); change {tgt} ({mk}); o.{m2}(x) with x = {aname} gave {show(got[0])} but freshly built "
                         f"objects with the same contents give {show(got[1])}", case)
-    ctx.extra["D2_methods_found"] = found
-    ctx.extra["D2_plans"] = {"core": len(core), "other": len(rest)}
-    return n
+
+
+def run_d2(ctx, mods, thorough):
+    jobs, state = plan_d2(ctx, mods, thorough), {}
+    for job in jobs:
+        exec_d2(ctx, mods, job, state)
+    return len(jobs)
+
+
+# ------------------------------------------------------------------------------------------------ E: other in-place routes
+# The property speaks of item assignment.  NumPy offers many other ways of changing an array in place; for each of them the
+# real code either does not change the object (refused / a new object is made), or drops the caches (it passes through
+# PosBase.__setitem__), or silently leaves the cached values stale.  The table pins the outcome per route: a route known
+# to leave stale values is reported under its family's `inplace-route-stale:<family>` key (listed in known_findings.txt);
+# a route that is expected to be harmless and is not is a new violation.
+
+NEWROW3 = np.array([2_102_940.4, 721_569.4, 5_958_192.1])
+
+ROUTES = {
+    # name: (family, expected, action)
+    "p[0] = v": ("setitem", "invalidates", lambda p: p.__setitem__(0, NEWROW3)),
+    "p.T[:, 0] = v": ("setitem", "invalidates", lambda p: p.T.__setitem__((slice(None), 0), NEWROW3)),
+    "p[0][:] = v": ("setitem", "invalidates", lambda p: p[0].__setitem__(slice(None), NEWROW3)),
+    "p.real[0] = v": ("setitem", "invalidates", lambda p: p.real.__setitem__(0, NEWROW3)),
+    "for r in p: r[:] = v": ("setitem", "invalidates", lambda p: [r.__setitem__(slice(None), NEWROW3) for r in p][:0]),
+    "np.put_along_axis(p, ...)": ("setitem", "invalidates", lambda p: np.put_along_axis(p, np.zeros((len(p), 1), dtype=int), 1.3e6, axis=1)),
+    "np.random.shuffle(p)": ("setitem", "invalidates", lambda p: np.random.RandomState(1).shuffle(p)),
+    "p += ndarray": ("augmented", "not-in-place", lambda p: p.__iadd__(np.ones(3))),
+    "p -= ndarray": ("augmented", "not-in-place", lambda p: p.__isub__(np.ones(3))),
+    "p *= 0.99": ("augmented", "not-in-place", lambda p: p.__imul__(0.99)),
+    "p /= 2": ("augmented", "not-in-place", lambda p: p.__itruediv__(2.0)),
+    "p.resize(p.shape)": ("resize", "not-in-place", lambda p: p.resize(p.shape)),
+    "p.resize((1, 3))": ("resize", "not-in-place", lambda p: p.resize((1, 3))),
+    "np.add(p, 1000, out=p)": ("ufunc-out", "stale", lambda p: np.add(p, 1000.0, out=p)),
+    "np.multiply(a, .99, out=p)": ("ufunc-out", "stale", lambda p: np.multiply(np.asarray(p), 0.99, out=p)),
+    "np.add.at(p, (0, 0), 5000)": ("ufunc-out", "stale", lambda p: np.add.at(p, (0, 0), 5000.0)),
+    "p.clip(0, 5e6, out=p)": ("ufunc-out", "stale", lambda p: p.clip(0, 5e6, out=p)),
+    "p.round(-3, out=p)": ("ufunc-out", "stale", lambda p: p.round(-3, out=p)),
+    "np.cumsum(a, axis=0, out=p)": ("ufunc-out", "stale", lambda p: np.cumsum(np.asarray(p), axis=0, out=p)),
+    "np.matmul(a, m, out=p)": ("ufunc-out", "stale", lambda p: np.matmul(np.asarray(p), np.eye(3) * 0.99, out=p)),
+    "np.dot(a, m, out=p)": ("ufunc-out", "stale", lambda p: np.dot(np.asarray(p), np.eye(3) * 0.99, out=p)),
+    "np.take(a, idx, axis=0, out=p)": ("ufunc-out", "stale", lambda p: np.take(np.asarray(p), list(range(len(p)))[::-1], axis=0, out=p)),
+    "np.copyto(p, v)": ("c-level-write", "stale", lambda p: np.copyto(p, np.asarray(p) * 0.99)),
+    "p.fill(v)": ("c-level-write", "stale", lambda p: p.fill(6.0e6)),
+    "p.put(0, v)": ("c-level-write", "stale", lambda p: p.put(0, 1.3e6)),
+    "np.put(p, 0, v)": ("c-level-write", "stale", lambda p: np.put(p, 0, 1.3e6)),
+    "np.place(p, mask, v)": ("c-level-write", "stale", lambda p: np.place(p, np.asarray(p) > 6e6, 6.1e6)),
+    "np.putmask(p, mask, v)": ("c-level-write", "stale", lambda p: np.putmask(p, np.asarray(p) > 6e6, 6.1e6)),
+    "p.setfield(v, float)": ("c-level-write", "stale", lambda p: p.setfield(6.0e6, np.float64)),
+    "p.byteswap(inplace=True)": ("c-level-write", "stale", lambda p: p.byteswap(inplace=True)),
+    "p.sort(axis=0)": ("sort", "stale", lambda p: p.sort(axis=0)),
+    "p.partition(1, axis=0)": ("sort", "stale", lambda p: p.partition(1, axis=0)),
+    "p.flat[0] = v": ("flat-iterator-buffer", "stale", lambda p: p.flat.__setitem__(0, 1.3e6)),
+    "np.nditer(p, readwrite)": ("flat-iterator-buffer", "stale", lambda p: [x.__setitem__(..., x * 0.99) for x in np.nditer(p, op_flags=["readwrite"])][:0]),
+    "memoryview(p) write": ("flat-iterator-buffer", "stale", lambda p: memoryview(p).cast("B").cast("d").__setitem__(0, 1.3e6)),
+    "p.val[0] = v": ("plain-ndarray-view", "stale", lambda p: p.val.__setitem__(0, NEWROW3)),
+    "np.asarray(p)[0] = v": ("plain-ndarray-view", "stale", lambda p: np.asarray(p).__setitem__(0, NEWROW3)),
+    "p.view(np.ndarray)[0] = v": ("plain-ndarray-view", "stale", lambda p: p.view(np.ndarray).__setitem__(0, NEWROW3)),
+    "p.x[0] = v": ("plain-ndarray-view", "stale", lambda p: p.x.__setitem__(0, 1.3e6)),
+    "p.mat[0] = v": ("plain-ndarray-view", "stale", lambda p: p.mat.__setitem__(0, NEWROW3[:, None])),
+    # the constructor keeps the caller's float64 C-contiguous array as the memory of the object: the caller changing it
+    "a = array given to Position(a); a[0] = v": ("plain-ndarray-view", "stale", lambda p: p.base.__setitem__(0, NEWROW3)),
+}
+
+
+def run_routes(ctx, mods):
+    position = mods[6]
+    P = position.Position
+
+    def make():
+        sat = P(SAT[:3].copy(), system="trs")
+        return P(STA[:3].copy(), system="trs", other=sat), sat
+
+    def reads(p):
+        with np.errstate(all="ignore"):
+            return {n: np.array(getattr(p, n), dtype=float, copy=True) for n in ("llh", "distance", "azimuth", "elevation")}
+
+    table = {}
+    for where in ("self", "other"):
+        for name, (family, expected, act) in ROUTES.items():
+            p, sat = make()
+            reads(p)  # everything cached
+            before = (np.array(p, copy=True), np.array(sat, copy=True))
+            try:
+                with np.errstate(all="ignore"):
+                    act(p if where == "self" else sat)
+                raised = None
+            except Exception as e:  # noqa
+                raised = type(e).__name__
+            changed = not (np.array_equal(before[0], np.asarray(p)) and np.array_equal(before[1], np.asarray(sat)))
+            if not changed:
+                outcome = "not-in-place" + (f" ({raised})" if raised else "")
+            else:
+                got = reads(p)
+                fresh = reads(P(np.array(p), system="trs", other=P(np.array(sat), system="trs")))
+                stale = [n for n in got if not (got[n].shape == fresh[n].shape and np.allclose(got[n], fresh[n], rtol=1e-12, atol=0, equal_nan=True))]
+                outcome = "stale" if stale else "invalidates"
+            table[f"{where}: {name}"] = outcome
+            ctx.case(["E", where, name], nontrivial=True)
+            ctx.count(f"E:{outcome.split(' ')[0]}")
+            case = {"part": "E", "object": "p = Position(STA, other=sat)", "route_applied_to": "p" if where == "self" else "sat (= p.other)",
+                    "route": name, "then": "p.llh / p.distance / p.azimuth / p.elevation compared with freshly built objects"}
+            if outcome == "stale" and expected == "stale":
+                ctx.violate(f"inplace-route-stale:{family}",
+                            f"{name} (applied to {'p' if where == 'self' else 'p.other'}) changes the contents but p.{stale[0]} still returns the value of the old contents", case)
+            elif outcome == "stale":
+                ctx.violate(f"inplace-route-regressed:{name}",
+                            f"{name} (applied to {'p' if where == 'self' else 'p.other'}) used to be {expected} and now leaves p.{stale[0]} stale", case)
+            elif expected != "stale" and not outcome.startswith(expected):
+                ctx.count(f"E:outcome-changed:{name}")
+    ctx.extra["E_inplace_routes"] = table
+    return len(table)
+
+
+# ------------------------------------------------------------------------------------------------ F: raw functions and objects on one memory
+# `Position(val=a)` keeps the caller's float64 C-contiguous array `a` as its memory (np.asarray does not copy).  Histories
+# interleave the cached *functions* (trs2llh / llh2trs / enu2trs / trs2enu) called on that very memory — on `a`, on the
+# object itself, on `p.val`, on rows of either, on the columns of `p.llh` — with reads of the object's conversions and derived
+# quantities, item assignment through the object, and writes into the arrays the functions returned.  Demanded: every function
+# result equals an uncached evaluation of the current contents; no call makes `a`, the object or the array passed read-only;
+# every object read equals that of a freshly built twin; writing into a returned array changes nothing else.
+# (Changing `a` directly, behind the object, is the `plain-ndarray-view` route of part E.)
+
+
+def run_shared(ctx, mods, budget):
+    tr, rot, ell, nputil, T, Time, position = mods
+    P = position.Position
+    rng = ctx.rng
+    raw_trs2llh, raw_llh2trs = tr._trs2llh.__wrapped__, tr._llh2trs.__wrapped__
+    raw_enu2trs, raw_trs2enu = rot.enu2trs.__wrapped__.__wrapped__, rot.trs2enu.__wrapped__.__wrapped__
+
+    def bits(x):
+        x = np.asarray(x)
+        return (x.shape, str(x.dtype), x.tobytes())
+
+    n_hist = 0
+    for _ in range(budget):
+        shape = rng.choice(["n3", "n3", "13", "3"])
+        rows = {"n3": rng.choice([2, 3, 4]), "13": 1, "3": 1}[shape]
+        a = STA[:rows].copy() + np.array([rng.uniform(-500, 500) for _ in range(3)])
+        if shape == "3":
+            a = a[0].copy()
+        sat = P((SAT[:rows] if shape != "3" else SAT[0]).copy(), system="trs")
+        p = P(a, system="trs", other=sat)
+        ctx.count(f"F:constructor-keeps-callers-memory:{bool(np.shares_memory(p, a))}")
+        ops, held = [], []
+        case = {"part": "F", "shape": shape, "rows": rows, "ops": ops}
+        ok = True
+        for _step in range(rng.randint(3, 14)):
+            k = rng.random()
+            if k < 0.45:
+                fn = rng.choice(["trs2llh", "trs2llh", "llh2trs", "enu2trs", "trs2enu"])
+                if fn == "trs2llh":
+                    srcs = {"a": lambda: a, "p": lambda: p, "p.val": lambda: p.val, "asarray(p)": lambda: np.asarray(p)}
+                    if np.ndim(a) == 2:
+                        srcs.update({"a[0]": lambda: a[0], "p[0]": lambda: p[0], "a[0:1]": lambda: a[0:1]})
+                elif fn == "llh2trs":
+                    srcs = {"p.llh": lambda: p.llh, "p.llh.val": lambda: p.llh.val, "copy(p.llh)": lambda: np.array(p.llh.val)}
+                else:
+                    srcs = {"columns of p.llh": lambda: p.llh.val, "copy": lambda: np.array(p.llh.val)}
+                sname = rng.choice(sorted(srcs))
+                ops.append(f"{fn}({sname})")
+                src = srcs[sname]()
+                try:
+                    with np.errstate(all="ignore"):
+                        if fn == "trs2llh":
+                            r = tr.trs2llh(src)
+                            exp = raw_trs2llh(nputil.HashArray(np.array(src, dtype=float)), ell.GRS80)
+                        elif fn == "llh2trs":
+                            r = tr.llh2trs(src)
+                            exp = raw_llh2trs(nputil.HashArray(np.array(src, dtype=float)), ell.GRS80)
+                        else:
+                            lat, lon = (src[..., 0], src[..., 1])
+                            if np.ndim(lat) == 0:
+                                lat, lon = float(lat), float(lon)
+                            r = getattr(rot, fn)(lat, lon)
+                            exp = (raw_enu2trs if fn == "enu2trs" else raw_trs2enu)(np.array(lat) if np.ndim(lat) else lat, np.array(lon) if np.ndim(lon) else lon)
+                except Exception as e:  # noqa
+                    ctx.violate(f"shared-memory:raises:{fn}", f"{fn}({sname}) raised {type(e).__name__}: {e}", dict(case, ops=list(ops)))
+                    ok = False
+                    break
+                held.append(r)
+                if bits(r) != bits(exp):
+                    ctx.violate(f"shared-memory:raw-result-stale:{fn}", f"{fn}({sname}) does not equal an uncached evaluation of the current contents", dict(case, ops=list(ops)))
+                    ok = False
+                for nm, arr in (("a", a), ("p", p), (sname, src)):
+                    if isinstance(arr, np.ndarray) and not arr.flags.writeable and nm != "p.llh.val" and not nm.startswith("columns"):
+                        ctx.violate(f"shared-memory:argument-made-readonly:{fn}", f"after {fn}({sname}) the array {nm} is read-only", dict(case, ops=list(ops)))
+                        ok = False
+            elif k < 0.65:
+                nm = rng.choice(["llh", "distance", "azimuth", "elevation", "enu2trs", "trs2enu", "trs", "direction"])
+                ops.append(f"read p.{nm}")
+                with np.errstate(all="ignore"):
+                    got = obs_val(getattr(p, nm))
+                    twin = obs_val(getattr(P(np.array(p), system="trs", other=P(np.array(sat), system="trs")), nm))
+                if not close(got, twin, 1e-12):
+                    ctx.violate(f"shared-memory:object-read-stale:{nm}", f"p.{nm} gave {show(got)} but a freshly built twin gives {show(twin)}", dict(case, ops=list(ops)))
+                    ok = False
+            elif k < 0.82:
+                who = rng.choice(["p", "sat"])
+                x = p if who == "p" else sat
+                row = new_row(x, 0)
+                ops.append(f"{who}[0] = ..." if np.ndim(x) == 2 else f"{who}[:] = ...")
+                try:
+                    if np.ndim(x) == 2:
+                        x[0] = row
+                    else:
+                        x[:] = row
+                except ValueError as e:
+                    ctx.violate("shared-memory:item-assignment-refused", f"item assignment to {who} raised {e} after a cached function was called on its memory", dict(case, ops=list(ops)))
+                    ok = False
+                    break
+            elif held:
+                j = rng.randrange(len(held))
+                ops.append(f"result[{j}][...] = junk")
+                try:
+                    np.asarray(held[j])[...] = 1.0e9 + j
+                except ValueError:
+                    ops[-1] += " (refused)"
+            if not ok:
+                break
+        n_hist += 1
+        ctx.case(["F", shape, list(ops)], nontrivial=len(ops) > 2)
+        ctx.count("F:shared-memory-history")
+    return n_hist
